@@ -35,13 +35,48 @@ class SimFile(io.StringIO):
         return io.StringIO.read(self, *a)
 
 
+class SeamGap(BaseException):
+    """pgradd used a part of `os` that SimFS does not simulate.  Not an
+    Exception on purpose: it must not be taken for a failure of the code
+    under test (an alarm), it ends the run as a harness error instead."""
+
+
+# functions of os.path that only compute on the path text
+_PURE_PATH = ('join', 'dirname', 'basename', 'normpath', 'split', 'splitext',
+              'isabs', 'commonprefix', 'commonpath', 'normcase', 'splitdrive',
+              'sep', 'pardir', 'curdir', 'extsep', 'altsep', 'pathsep',
+              'defpath', 'devnull')
+
+
 class SimPath(object):
     def __init__(self, fs):
         self._fs = fs
 
-    join = staticmethod(posixpath.join)
-    dirname = staticmethod(posixpath.dirname)
-    basename = staticmethod(posixpath.basename)
+    def __getattr__(self, name):
+        if name in _PURE_PATH:
+            return getattr(posixpath, name)
+        raise SeamGap('os.path.%s is not simulated by SimFS' % name)
+
+    def realpath(self, p, **kw):
+        return self.abspath(p)            # SimFS has no symbolic links
+
+    def relpath(self, p, start=None):
+        return posixpath.relpath(self.abspath(p),
+                                 self.abspath(start or self._fs.cwd))
+
+    def expanduser(self, p):
+        if p == '~' or p.startswith('~/'):
+            return self._fs.env.get('HOME', '/sim/home') + p[1:]
+        return p
+
+    def lexists(self, p):
+        return self.exists(p)
+
+    def islink(self, p):
+        return False
+
+    def samefile(self, a, b):
+        return self.abspath(a) == self.abspath(b)
 
     def abspath(self, p):
         if not posixpath.isabs(p):
@@ -74,17 +109,74 @@ class SimPath(object):
         return self.abspath(p) in self._fs.files
 
 
+class SimEnviron(object):
+    """os.environ of the simulated process (reads are logged)."""
+
+    def __init__(self, fs):
+        self._fs = fs
+
+    def get(self, name, default=None):
+        v = self._fs.env.get(name, default)
+        self._fs.log.append(['getenv', name, v])
+        return v
+
+    def __getitem__(self, name):
+        self._fs.log.append(['getenv', name, self._fs.env.get(name)])
+        return self._fs.env[name]
+
+    def __contains__(self, name):
+        self._fs.log.append(['getenv', name, self._fs.env.get(name)])
+        return name in self._fs.env
+
+    def __iter__(self):
+        return iter(sorted(self._fs.env))
+
+    def __len__(self):
+        return len(self._fs.env)
+
+    def keys(self):
+        return sorted(self._fs.env)
+
+    def items(self):
+        return sorted(self._fs.env.items())
+
+
 class SimOS(object):
     sep = '/'
+    pathsep = ':'
+    linesep = '\n'
+    curdir = '.'
+    pardir = '..'
+    extsep = '.'
+    altsep = None
+    name = 'posix'
 
     def __init__(self, fs):
         self._fs = fs
         self.path = SimPath(fs)
+        self.environ = SimEnviron(fs)
+
+    def __getattr__(self, name):
+        raise SeamGap('os.%s is not simulated by SimFS' % name)
 
     def getenv(self, name, default=None):
-        v = self._fs.env.get(name, default)
-        self._fs.log.append(['getenv', name, v])
-        return v
+        return self.environ.get(name, default)
+
+    def getcwd(self):
+        return self._fs.cwd
+
+    def fspath(self, p):
+        return p if isinstance(p, str) else p.__fspath__()
+
+    def listdir(self, p='.'):
+        d = self.path.abspath(p).rstrip('/') + '/'
+        names = sorted(set(f[len(d):].split('/', 1)[0]
+                           for f in self._fs.files if f.startswith(d)))
+        self._fs.log.append(['listdir', d, len(names)])
+        if not names:
+            raise FileNotFoundError(errno.ENOENT, 'No such file or directory',
+                                    p)
+        return names
 
 
 class SimFS(object):
